@@ -6,7 +6,7 @@ PID = "C02"
 
 
 def scenarios(rng, tier):
-    sc = T.fam_breach(rng) + T.fam_late(rng) + T.fam_reorg(rng)[::3] + T.fam_expiry(rng, cfgs=(T.CFG_B, T.CFG_F))
+    sc = T.fam_breach(rng) + T.fam_late(rng) + T.fam_reorg(rng)[::3] + T.fam_expiry(rng, cfgs=(T.CFG_B, T.CFG_F)) + T.fam_oddnode(rng) + T.fam_staleboot(rng)
     sc += T.fam_random(rng, 12 if tier == "quick" else 150)
     if tier == "thorough":
         for _ in range(4):
@@ -15,7 +15,7 @@ def scenarios(rng, tier):
     return sc
 
 
-RULE = 'every RPC of every explored history is checked by the C02 monitors (justified send, tracker only for a penalty the node has); families breach, late, reorg, expiry (purged owners), random'
+RULE = 'every RPC of every explored history is checked by the C02 monitors (justified send, tracker only for a penalty the node has); families breach, late, reorg, expiry (purged owners), odd answers of the node to the mempool query (unexpected error code, malformed result), random'
 
 
 def main(tier, replay=None):
